@@ -8,7 +8,7 @@ from props.parsing import *
 FAULT = {}
 
 def gen_faulted(tier, rng):
-    n = 4000 if tier == "quick" else 300000
+    n = 10000 if tier == "quick" else 300000
     out = []
     for d in docs(rng, n):
         f = specgen.inject_fault(d, rng)
@@ -35,7 +35,7 @@ def gen_malformed(tier, rng):
     return [req_parse(b) for b in byte_stream(tier, rng, 3000 if tier == "quick" else 200000, 1000 if tier == "quick" else 100000, 3) if len(b) < 20000]
 
 def gen_render(tier, rng):
-    n = 400 if tier == "quick" else 30000
+    n = 800 if tier == "quick" else 30000
     out = []
     for d in docs(rng, n, max_records=3):
         f = specgen.inject_fault(d, rng)
